@@ -68,13 +68,12 @@ impl Method for DMA {
 	}
 	open spec fn input_ok(&self, x: &ValueType) -> bool { true }
 	open spec fn step(pre: &Self, x: &ValueType, post: &Self, out: &ValueType) -> bool {
-		exists|mid: ValueType| #[trigger] dma_parts(pre, x, post, out, mid)
+		// the intermediate stage output is the first stage's new value (EMA::step: post.value == out)
+		dma_parts(pre, x, post, out, post.ema.value)
 	}
 //@extract src/methods/ema.rs impl[Method for DMA]::new
 //@end
 //@extract src/methods/ema.rs impl[Method for DMA]::next
-//@hint result
-	proof { assert(dma_parts(old(self), value, self, &r, tmp0__)); }
 //@end
 }
 
@@ -96,13 +95,11 @@ impl Method for TMA {
 	}
 	open spec fn input_ok(&self, x: &ValueType) -> bool { true }
 	open spec fn step(pre: &Self, x: &ValueType, post: &Self, out: &ValueType) -> bool {
-		exists|mid: ValueType| #[trigger] tma_parts(pre, x, post, out, mid)
+		tma_parts(pre, x, post, out, post.dma.dma.value)
 	}
 //@extract src/methods/ema.rs impl[Method for TMA]::new
 //@end
 //@extract src/methods/ema.rs impl[Method for TMA]::next
-//@hint result
-	proof { assert(tma_parts(old(self), value, self, &r, tmp0__)); }
 //@end
 }
 
@@ -132,14 +129,11 @@ impl Method for DEMA {
 	}
 	open spec fn input_ok(&self, x: &ValueType) -> bool { true }
 	open spec fn step(pre: &Self, x: &ValueType, post: &Self, out: &ValueType) -> bool {
-		exists|e: ValueType, d: ValueType| #[trigger] dema_parts(pre, x, post, out, e, d)
+		dema_parts(pre, x, post, out, post.ema.value, post.dma.value)
 	}
 //@extract src/methods/ema.rs impl[Method for DEMA]::new
 //@end
 //@extract src/methods/ema.rs impl[Method for DEMA]::next
-//@replace self.dma.next(&e_ma); ==> let d_ma__ = self.dma.next(&e_ma);
-//@hint result
-	proof { assert(dema_parts(old(self), value, self, &r, e_ma, d_ma__)); }
 //@end
 }
 
@@ -170,14 +164,11 @@ impl Method for TEMA {
 	}
 	open spec fn input_ok(&self, x: &ValueType) -> bool { true }
 	open spec fn step(pre: &Self, x: &ValueType, post: &Self, out: &ValueType) -> bool {
-		exists|e: ValueType, d: ValueType, t: ValueType| #[trigger] tema_parts(pre, x, post, out, e, d, t)
+		tema_parts(pre, x, post, out, post.ema.value, post.dma.value, post.tma.value)
 	}
 //@extract src/methods/ema.rs impl[Method for TEMA]::new
 //@end
 //@extract src/methods/ema.rs impl[Method for TEMA]::next
-//@replace self.tma.next(&d_ma); ==> let t_ma__ = self.tma.next(&d_ma);
-//@hint result
-	proof { assert(tema_parts(old(self), value, self, &r, e_ma, d_ma, t_ma__)); }
 //@end
 }
 //@export-end
@@ -281,13 +272,11 @@ impl Method for TSI {
 	}
 	open spec fn input_ok(&self, x: &ValueType) -> bool { true }
 	open spec fn step(pre: &Self, x: &ValueType, post: &Self, out: &ValueType) -> bool {
-		exists|m: ValueType, am: ValueType, a1: ValueType, b1: ValueType| #[trigger] tsi_parts(pre, x, post, out, m, am, a1, b1)
+		tsi_parts(pre, x, post, out, mk(x@ - pre.last_value@), mk(rabs(x@ - pre.last_value@)), post.ema11.value, post.ema21.value)
 	}
 //@extract src/methods/tsi.rs impl[Method for TSI]::new
 //@end
 //@extract src/methods/tsi.rs impl[Method for TSI]::next
-//@hint result
-	proof { let am = mk(rabs(momentum@)); assert(tsi_parts(old(self), value__r, self, &r, momentum, am, tmp0__, tmp1__)); }
 //@end
 }
 
@@ -302,7 +291,7 @@ pub proof fn dma_const_step(pre: DMA, v: R, post: DMA, out: R)
 	requires pre.inv(), pre.ema.value@ == v@, pre.dma.value@ == v@, DMA::step(&pre, &v, &post, &out)
 	ensures post.ema.value@ == v@, post.dma.value@ == v@, out@ == v@
 {
-	let mid = choose|mid: ValueType| #[trigger] dma_parts(&pre, &v, &post, &out, mid);
+	let mid = post.ema.value;
 	ema_const_step(pre.ema, v, post.ema, mid);
 	ema_const_step(pre.dma, mid, post.dma, out);
 }
@@ -310,7 +299,7 @@ pub proof fn tma_const_step(pre: TMA, v: R, post: TMA, out: R)
 	requires pre.inv(), pre.dma.ema.value@ == v@, pre.dma.dma.value@ == v@, pre.tma.value@ == v@, TMA::step(&pre, &v, &post, &out)
 	ensures out@ == v@, post.tma.value@ == v@
 {
-	let mid = choose|mid: ValueType| #[trigger] tma_parts(&pre, &v, &post, &out, mid);
+	let mid = post.dma.dma.value;
 	dma_const_step(pre.dma, v, post.dma, mid);
 	ema_const_step(pre.tma, mid, post.tma, out);
 }
@@ -318,7 +307,7 @@ pub proof fn dema_const_step(pre: DEMA, v: R, post: DEMA, out: R)
 	requires pre.inv(), pre.ema.value@ == v@, pre.dma.value@ == v@, DEMA::step(&pre, &v, &post, &out)
 	ensures out@ == v@, post.ema.value@ == v@, post.dma.value@ == v@
 {
-	let (e, d) = choose|e: ValueType, d: ValueType| #[trigger] dema_parts(&pre, &v, &post, &out, e, d);
+	let (e, d) = (post.ema.value, post.dma.value);
 	ema_const_step(pre.ema, v, post.ema, e);
 	ema_const_step(pre.dma, e, post.dma, d);
 }
@@ -326,7 +315,7 @@ pub proof fn tema_const_step(pre: TEMA, v: R, post: TEMA, out: R)
 	requires pre.inv(), pre.ema.value@ == v@, pre.dma.value@ == v@, pre.tma.value@ == v@, TEMA::step(&pre, &v, &post, &out)
 	ensures out@ == v@
 {
-	let (e, d, t) = choose|e: ValueType, d: ValueType, t: ValueType| #[trigger] tema_parts(&pre, &v, &post, &out, e, d, t);
+	let (e, d, t) = (post.ema.value, post.dma.value, post.tma.value);
 	ema_const_step(pre.ema, v, post.ema, e);
 	ema_const_step(pre.dma, e, post.dma, d);
 	ema_const_step(pre.tma, d, post.tma, t);
@@ -344,7 +333,7 @@ pub proof fn tsi_const_step(pre: TSI, v: R, post: TSI, out: R)
 		TSI::step(&pre, &v, &post, &out)
 	ensures out@ == 0real, post.ema11.value@ == 0real, post.ema12.value@ == 0real, post.ema21.value@ == 0real, post.ema22.value@ == 0real, post.last_value@ == v@
 {
-	let (m, am, a1, b1) = choose|m: ValueType, am: ValueType, a1: ValueType, b1: ValueType| #[trigger] tsi_parts(&pre, &v, &post, &out, m, am, a1, b1);
+	let (m, am, a1, b1) = (mk(v@ - pre.last_value@), mk(rabs(v@ - pre.last_value@)), post.ema11.value, post.ema21.value);
 	ema_const_step(pre.ema11, m, post.ema11, a1);
 	ema_const_step(pre.ema12, a1, post.ema12, post.ema12.value);
 	ema_const_step(pre.ema21, am, post.ema21, b1);
